@@ -242,6 +242,7 @@ func runC05(r *core.Run) {
 	}
 	r.Exhaustive(!quick(r))
 	c05HTTPResend(r, tmpls[false])
+	c05TwoPending(r, tmpls[false])
 	core.Parallel(len(jobs), 16, func(ji int) {
 		j := jobs[ji]
 		t := tmpls[j.mpp]
@@ -586,6 +587,68 @@ func c05HTTPResend(r *core.Run, t *c05tmpl) {
 			if os.Getenv("VERIF_DEBUG_LOG") != "" {
 				fmt.Fprintf(os.Stderr, "http-resend %s:\n  %s\n", name, strings.Join(obs, "\n  "))
 			}
+		}()
+	}
+}
+
+// c05TwoPending: two melts in flight at the same time, one of which Lightning then completes and the
+// other fails; one state check naming the inputs of both adopts both outcomes (each quote is looked at,
+// not only the first), and so do the quote polls.
+func c05TwoPending(r *core.Run, t *c05tmpl) {
+	for ci, order := range [][2]bool{{true, false}, {false, true}} {
+		sig := fmt.Sprintf("two-pending/%v-%v", order[0], order[1])
+		if !r.Want(sig) {
+			continue
+		}
+		func() {
+			dir := core.TempDir("c05p")
+			defer os.RemoveAll(dir)
+			if err := core.CopyDir(t.dir, dir); err != nil {
+				r.Inconclusive("copy: " + err.Error())
+				return
+			}
+			env, err := menv.New(t.world.Clone(int64(91000+ci)), "m0", dir, menv.Opts{})
+			if err != nil {
+				r.Inconclusive("load: " + err.Error())
+				return
+			}
+			defer env.Close()
+			pend := lnmodel.PayPlan{Answer: lnmodel.APending, Truth: lnmodel.InFlight}
+			env.Node.PlanPay(t.hash, pend)
+			env.Node.PlanPay(t.hash2, pend)
+			q1, e1 := env.Melt(t.quote, cashu.Proofs{t.coin})
+			q2, e2 := env.Melt(t.quote2, cashu.Proofs{t.coin2})
+			if e1 != nil || e2 != nil || q1.State.String() != "PENDING" || q2.State.String() != "PENDING" {
+				r.Inconclusive(fmt.Sprintf("two-pending: set-up melts answered %v %v / %v %v", q1.State, e1, q2.State, e2))
+				return
+			}
+			env.World.Resolve("m0", t.hash, order[0])
+			env.World.Resolve("m0", t.hash2, order[1])
+			y1, y2 := refcrypto.YHex(t.coin.Secret), refcrypto.YHex(t.coin2.Secret)
+			st, err := env.CheckState([]string{y1, y2})
+			r.Eval(sig, true)
+			want := func(ok bool) string {
+				if ok {
+					return "SPENT"
+				}
+				return "UNSPENT"
+			}
+			if err != nil || len(st) != 2 {
+				r.Violate("two-pending:state-check-failed", fmt.Sprintf("%v", err), sig, nil)
+				return
+			}
+			got := []string{st[0].State.String(), st[1].State.String()}
+			if got[0] != want(order[0]) || got[1] != want(order[1]) {
+				r.Violate("two-pending:state-check-did-not-adopt-both-outcomes", fmt.Sprintf("two melts were in flight, Lightning completed one (success=%v) and the other (success=%v); one state check naming the inputs of both answers %v, expected [%s %s]", order[0], order[1], got, want(order[0]), want(order[1])), sig, nil)
+			}
+			for i, q := range []string{t.quote, t.quote2} {
+				ms, err := env.MeltQuoteState(q)
+				wantQ := map[bool]string{true: "PAID", false: "UNPAID"}[order[i]]
+				if err != nil || ms.State.String() != wantQ {
+					r.Violate("two-pending:quote-state", fmt.Sprintf("quote %d polls to %v (%v), expected %s", i+1, ms.State, err, wantQ), sig, nil)
+				}
+			}
+			r.Sample("two-pending", map[string]any{"case": sig, "states": got})
 		}()
 	}
 }
